@@ -565,7 +565,74 @@ def _foreign_replay(case):
     return acc
 
 
+def overlap_job(job):
+    """Two single-value reads overlap on one inverter object (the same id twice, two ids on the same register, an id and the bulk
+    read): each call still returns the documented reading of its own registers - computed here from the simulator's register file by
+    the reference decoder."""
+    from vlib import siminv
+    from vlib.harness import run_sync
+    ci, salt = job
+    cfg = FOREIGN_CONFIGS[ci]
+    fam = cfg["family"]
+    acc = Acc()
+    if fam == "ES":
+        return acc      # ES reads single values through the bulk read
+    inv, sim = _foreign_target(cfg, salt)
+    from collections import Counter
+    listed = Counter(x.id_ for x in inv.sensors())
+    # (ids that the tables list twice - meter_e_total_exp/imp, Float and Energy8 - resolve to their LAST definition in read_sensor:
+    #  which definition answers is C16's subject, they are left out here)
+    typed = [x for x in inv.sensors() if rs.type_name(x) not in rs.COMPUTED and rs.width(x) is not None and listed[x.id_] == 1]
+    by_reg = {}
+    for x in typed:
+        by_reg.setdefault(x.offset, []).append(x)
+
+    def reference(x):
+        w = rs.width(x)
+        raw = sim.get_bytes(x.offset, (w + 1) // 2)
+        tn = rs.type_name(x)
+        own = raw[-1:] if (w == 1 and tn in ("ByteL", "EnumL")) else raw[:w]
+        if tn in ("ByteL", "EnumL"):
+            own = raw[:2]
+        try:
+            return ("ok", rs.decode(x, own))
+        except rs.Undecodable:
+            return ("undecodable", None)
+
+    for k, x in enumerate(typed):
+        if k % 4 != salt % 4 and len(by_reg[x.offset]) < 2:
+            continue
+        partners = [("same", lambda x=x: inv.read_sensor(x.id_), x)]
+        for y in by_reg[x.offset]:
+            if y is not x:
+                partners.append(("alias:" + y.id_, lambda y=y: inv.read_sensor(y.id_), y))
+        partners.append(("bulk", lambda: inv.read_runtime_data(), None))
+        for pname, pfn, py in partners:
+            for offset in (0, 1, 2):
+                acc.case()
+                acc.nontrivial("overlap", ci, x.id_, pname, offset)
+                res, exc, others = siminv.run_overlapping(inv, lambda x=x: inv.read_sensor(x.id_), [(pfn, offset)], with_others=True)
+                case = {"overlap": True, "config": ci, "salt": salt, "sensor": x.id_, "partner": pname, "offset": offset}
+                for who, sensor, (r, e) in (("first", x, (res, exc)), ("second", py, others[0])):
+                    if sensor is None:
+                        continue
+                    kind, want = reference(sensor)
+                    if e is not None:
+                        if kind == "undecodable" and isinstance(e, ValueError):
+                            continue
+                        acc.fail("C12|api-overlap|%s|%s" % (fam, type(e).__name__), "read_sensor(%r) overlapping with %s raised %r" % (sensor.id_, pname, e), case)
+                        break
+                    if kind == "ok" and not rs.same(r, want) and repr(r) != repr(want):
+                        acc.fail("C12|api-overlap|%s|value-differs" % fam, "%s caller: read_sensor(%r) = %r while overlapping with %s (started %d steps later), the "
+                                 "documented reading of its registers is %r" % (who, sensor.id_, r, pname, offset, want), case)
+                        break
+    acc.sample({"overlap": True, "config": ci, "sensors": len(typed)})
+    return acc
+
+
 def run(ctx):
+    ctx.shard(overlap_job, [(ci, ctx.seed + k) for ci in range(len(FOREIGN_CONFIGS)) for k in range(ctx.pick(1, 4))],
+              "API level: two single-value reads (same id / ids sharing a register / the bulk read) overlap on one object; each returns the reference reading of its own registers")
     parts = 5 if ctx.quick else 16
     ctx.shard(foreign_job, [(ci, p, parts, not ctx.quick, ctx.seed) for ci in ((0, 3, 5) if ctx.quick else range(len(FOREIGN_CONFIGS))) for p in range(parts)],
               "API level: one register of the blocks read by read_runtime_data() takes %d values (small codes, nibble patterns, single bits); every "
@@ -609,6 +676,9 @@ def replay(ctx, case):
         return
     if case.get("history"):
         ctx.acc.merge(history_job((0, 1)))
+        return
+    if case.get("overlap"):
+        ctx.acc.merge(overlap_job((case["config"], case["salt"])))
         return
     if case.get("api_foreign"):
         cfg = FOREIGN_CONFIGS[case["config"]]
